@@ -74,6 +74,8 @@ pub struct Base {
     pub pos_t: usize,
     pub pos_ad: usize,
     pub pos_b: usize,
+    /// the owner's positions WITHOUT liquidity in other pools (p_a3 and p_b share both mints with p_a; p_a2 shares one; p_t is Token-2022)
+    pub empty_foreign: Vec<usize>,
     pub bundle_mint: Pubkey,
     pub bundle_token: Pubkey,
     pub bundled_open: usize, // bundled position index 3 (funded)
@@ -163,6 +165,7 @@ pub fn build_base(seed: u64) -> Base {
     fund(&mut w, pos_ad, 4_000_000_000);
     let pos_b = open(&mut w, p_b, owner, -1280, 1280, false);
     fund(&mut w, pos_b, 4_000_000_000);
+    let empty_foreign = vec![open(&mut w, p_a3, owner, -2560, 1280, false), open(&mut w, p_b, owner, -1280, 2560, true), open(&mut w, p_a2, owner, -640, 640, false), open(&mut w, p_t, owner, -640, 1280, true)];
     // lock te_locked
     {
         let pi = w.positions[te_locked].clone();
@@ -318,7 +321,7 @@ pub fn build_base(seed: u64) -> Base {
         assert!(o.ok(), "catalogue set-up: update fees {i} {:?}", o.out.err);
     }
     Base {
-        w, cfg_a, cfg_b, p_a, p_a2, p_a3, p_t, p_ad, p_b, p_22, pos_22, owner, other, delegate, pos_full, pos_empty, pos_msig, pos_same, te_full, te_empty, te_locked, te_lockable, other_pos, pos_a3, pos_a2, pos_t, pos_ad, pos_b,
+        w, cfg_a, cfg_b, p_a, p_a2, p_a3, p_t, p_ad, p_b, p_22, pos_22, owner, other, delegate, pos_full, pos_empty, pos_msig, pos_same, te_full, te_empty, te_locked, te_lockable, other_pos, pos_a3, pos_a2, pos_t, pos_ad, pos_b, empty_foreign,
         bundle_mint, bundle_token, bundled_open, empty_bundle_mint, empty_bundle_token, aft_a, aft_delegate, aft_perm, aft_perm_delegate, aft_b, badge_mint,
     }
 }
